@@ -885,6 +885,18 @@ pub fn gen_scenario(rng: &mut Rng) -> Scenario {
         };
         g.bound.insert("a".to_string(), Ty::List);
         stmts.push(SStmt { stmt: Stmt::Expr(assign("a", e)), kind: "bind-data".into() });
+        if big {
+            // the long list goes through a callback-taking built-in whose callback fails part-way
+            // or reads the list being processed
+            let f = *g.rng.pick(&["map", "filter", "every", "some"]);
+            let cb = match g.rng.below(3) {
+                0 => lam(&["x"], cond(bin(".<", id("x"), num(3)), id("x"), bin("+", id("x"), st("!")))),
+                1 => lam(&["x"], bin(".>", call(id("len"), vec![id("a")]), id("x"))),
+                _ => lam(&["x"], bin("+", id("x"), num(1))),
+            };
+            stmts.push(SStmt { stmt: Stmt::Expr(call(id(f), vec![id("a"), cb])), kind: "builtin-on-bound".into() });
+            stmts.push(SStmt { stmt: Stmt::Expr(call(id("len"), vec![id("a")])), kind: "observe".into() });
+        }
         if g.rng.chance(1, 2) {
             g.bound.insert("s".to_string(), Ty::Str);
             stmts.push(SStmt { stmt: Stmt::Expr(assign("s", st("seed"))), kind: "bind-data".into() });
@@ -894,6 +906,8 @@ pub fn gen_scenario(rng: &mut Rng) -> Scenario {
             stmts.push(SStmt { stmt: Stmt::Expr(assign("r", E::Rec(vec![RK::Static("k".into(), num(1)), RK::Static("m".into(), st("s")), RK::Static("x".into(), E::List(vec![num(1), num(2)]))]))), kind: "bind-data".into() });
         }
     }
+    // whatever the prefixes above took, at least three generated statements follow them
+    let n = n.max(stmts.len() + 3);
     while stmts.len() < n {
         let (s, k) = g.stmt();
         stmts.push(SStmt { stmt: s, kind: k.to_string() });
